@@ -23,6 +23,7 @@ RULE = (
     "Non-trivial = aspect ratios of element and viewBox differ by more than 1 %; distinct by the case."
 )
 ASSUMPTIONS = [
+    'the object route builds the Viewbox in every constructor form: (text, par), (text, preserveAspectRatio=), (text, preserve_aspect_ratio=), keywords only, dict, four numbers + keyword, copy, attribute assigned',
     "x/y of the outermost svg are not generated (SVG gives them no meaning there); nested svg elements carry x/y",
     "preserveAspectRatio values are spelled with single spaces and exact case (the quantifier lists the 10 x 3 values)",
     "element sizes use px, pt, pc, in and percentages; mm/cm are left to C12 (inch-constant finding)",
